@@ -209,6 +209,18 @@ pub fn run_copia(args: &[&str], cwd: &Path) -> Run {
     Run { code: o.status.code(), signal: o.status.signal(), stdout: String::from_utf8_lossy(&o.stdout).into(), stderr: String::from_utf8_lossy(&o.stderr).into() }
 }
 
+/// The same command with the LD_PRELOAD shim killing it (SIGKILL) before its k-th file-system-mutating call.
+/// None when the shim is not available (or under valgrind, which has its own preload).
+pub fn run_copia_killed(args: &[&str], cwd: &Path, k: u64) -> Option<Run> {
+    use std::os::unix::process::ExitStatusExt;
+    let shim = std::env::var("VH_SHIM").ok()?;
+    if valgrind() || !Path::new(&shim).exists() {
+        return None;
+    }
+    let o = Command::new(copia_bin()).args(args).current_dir(cwd).env("RUST_LOG", "off").env("LD_PRELOAD", shim).env("FSMON_MATCH", "copia").env("FSMON_KILL_AT", k.to_string()).env("FSMON_KILL_CLASS", "mutating").output().ok()?;
+    Some(Run { code: o.status.code(), signal: o.status.signal(), stdout: String::from_utf8_lossy(&o.stdout).into(), stderr: String::from_utf8_lossy(&o.stderr).into() })
+}
+
 fn cli_one(seed: u64, idx: u64, work: &Path, rep: &mut Report) {
     let mut rng = Rng::derive(seed, 2, idx);
     rep.evaluations += 1;
@@ -300,6 +312,29 @@ fn cli_one(seed: u64, idx: u64, work: &Path, rep: &mut Report) {
         }
         if std::fs::read(dir.join("source")).ok().as_deref() != Some(&c.source[..]) {
             rep.violation("C01|cli|sync-modified-source", json!({"ctx": ctx}));
+        }
+    }
+    // ... and with DST's neighbourhood as an interrupted earlier sync of a LONGER version left it: whatever
+    // temporary state that run created must not leak into this one
+    if idx % 2 == 0 {
+        let dst = dir.join("dst_after_killed_sync");
+        std::fs::write(&dst, &c.basis).unwrap();
+        let mut longer = c.source.clone();
+        let extra_len = rng.range(1, 200_000);
+        longer.extend_from_slice(&rng.bytes(extra_len));
+        std::fs::write(dir.join("source_longer"), &longer).unwrap();
+        let k = rng.range(1, 7) as u64;
+        if let Some(rk) = run_copia_killed(&["sync", "source_longer", dst.to_str().unwrap(), "-b", &bss], &dir, k) {
+            rep.count(if rk.signal == Some(9) { "cli_single_sync_killed_runs" } else { "cli_single_sync_kill_point_beyond_end" }, 1);
+            if !dst.exists() {
+                std::fs::write(&dst, &c.basis).unwrap();
+            }
+            let r = run_copia(&["sync", "source", dst.to_str().unwrap(), "-b", &bss], &dir);
+            if r.code != Some(0) {
+                fail(rep, "sync-after-killed-sync-failed", &r, &ctx);
+            } else if std::fs::read(&dst).ok().as_deref() != Some(&c.source[..]) {
+                rep.violation("C01|cli|sync-after-killed-sync-dst-differs", json!({"ctx": ctx, "killed_before_mutating_call": k}));
+            }
         }
     }
     rep.count("cli_chains", 1);
